@@ -401,6 +401,17 @@ fn issue(op: &Op, r: i64, i: usize, c: &mut Commands, acc: Option<&mut Access>, 
             let e = ent_entity(*e);
             if let Some(mut ec) = c.get_entity(e) { ec.try_despawn(); ret = json!(1); }
         }
+        Op::DespRec(e) =>
+        {
+            let e = ent_entity(*e);
+            if let Some(ec) = c.get_entity(e) { ec.despawn_recursive(); ret = json!(1); }
+        }
+        Op::XDesp(_) | Op::XDespRec(_) | Op::XRm(_, _) =>
+        {
+            let op = op.clone();
+            ret = json!(1);
+            c.queue(move |w: &mut World| direct(w, &op));
+        }
         Op::DespSys(s) =>
         {
             let e = sys_entity(*s).unwrap();
@@ -458,6 +469,24 @@ fn issue(op: &Op, r: i64, i: usize, c: &mut Commands, acc: Option<&mut Access>, 
     }
     mark(c, "done", r, i);
     emit(json!({"t":"issue","r":r,"i":i,"op":op.to_json(),"ret":ret}));
+}
+
+/// Direct world access (no `Commands`): what a user's exclusive system or queued closure would do.
+fn direct(w: &mut World, op: &Op)
+{
+    match op
+    {
+        Op::XDesp(e) => { w.despawn(ent_entity(*e)); }
+        Op::XDespRec(e) => { despawn_with_children_recursive(w, ent_entity(*e), true); }
+        Op::XRm(e, x) =>
+        {
+            if let Ok(mut em) = w.get_entity_mut(ent_entity(*e))
+            {
+                if *x == 1 { em.remove::<React<C1>>(); } else { em.remove::<React<C2>>(); }
+            }
+        }
+        _ => panic!("not a direct op: {:?}", op),
+    }
 }
 
 //----------------------------------------------------------------------------------------------------------------
@@ -562,6 +591,11 @@ pub fn run_program(cfg: &Config, steps: &mut dyn Iterator<Item = Step>, source: 
             let e = world.spawn_empty().id();
             with_state(|st| st.ent[i] = e);
         }
+        for i in 2..=cfg.hier.min(cfg.nent)
+        {
+            let (parent, child) = with_state(|st| (st.ent[i - 1], st.ent[i]));
+            world.entity_mut(parent).add_child(child);
+        }
         for i in 1..=nsys
         {
             let sc = if cfg.kinds[i - 1] == "excl" { world.spawn_system_command(exclusive_system(i)) }
@@ -588,7 +622,7 @@ pub fn run_program(cfg: &Config, steps: &mut dyn Iterator<Item = Step>, source: 
     }
 
     emit(json!({"t":"cfg","nsys":nsys,"nonce":cfg.nonce,"nent":cfg.nent,"nworld":cfg.nworld,"neworld":cfg.neworld,
-        "kinds":cfg.kinds}));
+        "hier":cfg.hier,"kinds":cfg.kinds}));
     let mut panicked = false;
     let mut n = 0usize;
     while let Some(step) = steps.next()
@@ -603,6 +637,17 @@ pub fn run_program(cfg: &Config, steps: &mut dyn Iterator<Item = Step>, source: 
                 Step::Poll => { schedule_removal_and_despawn_reactors(app.world_mut()); }
                 // a real frame: the plugin's `Last` schedule runs GC and then the poll, `App::update` ends with clear_trackers
                 Step::Clear => { app.update(); }
+                Step::Direct(ops) =>
+                {
+                    let step = -(n as i64);
+                    for (i, op) in ops.iter().enumerate() { emit(json!({"t":"issue","r":step,"i":i+1,"op":op.to_json(),"ret":1})); }
+                    for (i, op) in ops.iter().enumerate()
+                    {
+                        emit(json!({"t":"apply","r":step,"i":i+1}));
+                        direct(app.world_mut(), op);
+                        emit(json!({"t":"done","r":step,"i":i+1}));
+                    }
+                }
                 Step::Frame(ops) =>
                 {
                     FRAME_OPS.with(|f| *f.borrow_mut() = Some((n as i64, ops.clone())));
